@@ -1,4 +1,4 @@
-(* C03 — every produced image is a well-formed MS-CFB file by an independent checker.  Statements are printed by Check below and compared with C03.expected.  PARTIAL: the checker wf_check (spec/WfImage.v, written from MS-CFB and the property text, sharing no mechanics with the model or the library) is run on the IMPLEMENTATION's bytes after every operation of every generated history — that is the property's oracle applied directly to the code.  Theorems cover the base case (the created image of both versions is accepted), evaluated instances of the inductive step, non-triviality of the checker, and the parts of the invariant W that are proved: FAT cache = FAT on disk through reuse and growth, FAT/DIFAT markers maintained (FatInv/DifatOk), free list disjoint from FAT sectors and naming only FREE cells, removal blanks exactly the removed slot and keeps the sibling tree a search tree without red-red edges.  Also proved (proofs/WfPersist.v): THE PROPERTY FOR NAMESPACE HISTORIES - the checker accepts (all 44 rules) the image of every state satisfying the history invariant of C02 (PInv) with empty streams, no orphan FAT cells, an empty mini stream and blank slots outside the tree; those conditions hold of the fresh file and are kept by create_storage, create_new_stream, remove_storage, remove_stream and the metadata setters; hence for EVERY history of those calls and the queries from a fresh file of either version (up to 6000 calls) the image is well-formed, at every prefix.  Also proved (proofs/DataWf.v): THE STATIC THEOREM FOR FILES WITH STREAM DATA - the checker accepts (all 44 rules) the image of every state satisfying DBase (Coherent + well-formed entries + root) and DInv (the mini-stream container and MiniFAT chains exist and fit; every stream has start END_OF_CHAIN when empty, a FAT chain of EXACTLY ceil(len / sector) sectors at or above the cutoff, a MiniFAT chain of exactly ceil(len / 64) mini sectors below it; every non-FREE FAT cell and every non-FREE MiniFAT cell has exactly one owner) with a tidy directory; the old theorem for empty streams is a corollary; DInv is preserved by write-back and resize in the non-allocating cases, by growth of a large stream into reused and into appended sectors, and by shrinking a large stream (freed cells become FREE and lose their owner); wf_data_history / wf_data_history_meta: for every history of covered handle operations, queries and metadata setters on a file with data the image is well-formed at every prefix.  NOT proved: preservation of DInv by small-stream growth with mini-sector allocation, by the migrations and by removal of streams with data (evaluated on long runs and a bounded exhaustive search of set_len sequences instead), and the lift of the allocating large-stream theorems into histories. *)
+(* C03 — every produced image is a well-formed MS-CFB file by an independent checker.  Statements are printed by Check below and compared with C03.expected.  PARTIAL: the checker wf_check (spec/WfImage.v, written from MS-CFB and the property text, sharing no mechanics with the model or the library) is run on the IMPLEMENTATION's bytes after every operation of every generated history — that is the property's oracle applied directly to the code.  Theorems cover the base case (the created image of both versions is accepted), evaluated instances of the inductive step, non-triviality of the checker, and the parts of the invariant W that are proved: FAT cache = FAT on disk through reuse and growth, FAT/DIFAT markers maintained (FatInv/DifatOk), free list disjoint from FAT sectors and naming only FREE cells, removal blanks exactly the removed slot and keeps the sibling tree a search tree without red-red edges.  Also proved (proofs/WfPersist.v): THE PROPERTY FOR NAMESPACE HISTORIES - the checker accepts (all rules, 50 since the strengthening prompted by proofs/WfOpen.v) the image of every state satisfying the history invariant of C02 (PInv) with empty streams, no orphan FAT cells, an empty mini stream and blank slots outside the tree; those conditions hold of the fresh file and are kept by create_storage, create_new_stream, remove_storage, remove_stream and the metadata setters; hence for EVERY history of those calls and the queries from a fresh file of either version (up to 6000 calls) the image is well-formed, at every prefix.  Also proved (proofs/DataWf.v): THE STATIC THEOREM FOR FILES WITH STREAM DATA - the checker accepts (all rules, 50 since the strengthening prompted by proofs/WfOpen.v) the image of every state satisfying DBase (Coherent + well-formed entries + root) and DInv (the mini-stream container and MiniFAT chains exist and fit; every stream has start END_OF_CHAIN when empty, a FAT chain of EXACTLY ceil(len / sector) sectors at or above the cutoff, a MiniFAT chain of exactly ceil(len / 64) mini sectors below it; every non-FREE FAT cell and every non-FREE MiniFAT cell has exactly one owner) with a tidy directory; the old theorem for empty streams is a corollary; DInv is preserved by write-back and resize in the non-allocating cases, by growth of a large stream into reused and into appended sectors, and by shrinking a large stream (freed cells become FREE and lose their owner); wf_data_history / wf_data_history_meta: for every history of covered handle operations, queries and metadata setters on a file with data the image is well-formed at every prefix.  NOT proved: preservation of DInv by small-stream growth with mini-sector allocation, by the migrations and by removal of streams with data (evaluated on long runs and a bounded exhaustive search of set_len sequences instead), and the lift of the allocating large-stream theorems into histories. *)
 From Cfb.model Require Import Base Names DirEnt State Alloc Dir Mini Store Handle Open Cfb.
 From Cfb.gen Require Import Consts.
 From Cfb.spec Require Import WfImage.
